@@ -92,6 +92,15 @@ Qed.
 Lemma nth_error_firstn_ge {A} n k (l : list A) : (n <= k)%nat -> nth_error (firstn n l) k = None.
 Proof. intros H. apply nth_error_None. rewrite firstn_length. lia. Qed.
 
+Lemma nth_error_ext_eq {A} (a b : list A) : (forall k, nth_error a k = nth_error b k) -> a = b.
+Proof.
+  revert b. induction a as [|x a IH]; intros b H.
+  - destruct b; auto. specialize (H 0%nat). discriminate.
+  - destruct b as [|y b]; [specialize (H 0%nat); discriminate|].
+    pose proof (H 0%nat) as H0. cbn in H0. inversion H0; subst. f_equal. apply IH.
+    intros k. apply (H (S k)).
+Qed.
+
 Lemma last_entry_nth l : l <> [] -> nth_error l (length l - 1) = Some (last_entry l).
 Proof.
   unfold last_entry. induction l as [|a l IH]; [congruence|]. intros _.
@@ -221,9 +230,19 @@ Record R (w : world) (sp : spec) : Prop := {
   r_c : el_committed (w_el w) = sp_committed sp;
   r_p : el_processed (w_el w) = sp_processed sp;
   r_s : im_saved (el_im (w_el w)) = sp_saved sp;
-  r_m1 : sp_mi sp + 1 <= im_marker (el_im (w_el w));
   r_m2 : im_marker (el_im (w_el w)) <= sp_saved sp + 1;
-  r_ents : im_ents (el_im (w_el w)) = skipn (N.to_nat (im_marker (el_im (w_el w)) - sp_mi sp - 1)) (sp_ents sp);
+  (* the in-memory window: a well-formed run from markerIndex to the last index that
+     agrees with the logical log above its marker; it may reach below the logical
+     first index after a compaction beyond the applied point, then it still knows
+     the marker entry's term *)
+  r_w1 : log_ok (im_marker (el_im (w_el w))) (im_ents (el_im (w_el w)));
+  r_w2 : forall i, sp_mi sp < i -> im_marker (el_im (w_el w)) <= i ->
+         nth_error (im_ents (el_im (w_el w))) (N.to_nat (i - im_marker (el_im (w_el w)))) = sp_get sp i;
+  r_w3 : im_marker (el_im (w_el w)) + nlen (im_ents (el_im (w_el w))) = sp_last sp + 1;
+  r_w4 : im_marker (el_im (w_el w)) <= sp_mi sp ->
+         exists e, nth_error (im_ents (el_im (w_el w))) (N.to_nat (sp_mi sp - im_marker (el_im (w_el w)))) = Some e
+                   /\ e_term e = sp_mt sp;
+  r_snapm : sp_snap sp = true -> im_marker (el_im (w_el w)) = sp_mi sp + 1;
   r_snap : im_snap (el_im (w_el w)) = if sp_snap sp then Some (sp_mi sp, sp_mt sp) else None;
   r_a1 : im_aidx (el_im (w_el w)) <= sp_committed sp;
   r_a2 : im_aidx (el_im (w_el w)) <> 0 -> sp_mi sp <= im_aidx (el_im (w_el w)) ->
@@ -245,37 +264,29 @@ Section Facts.
   Hypothesis HR : R w sp.
   Local Notation im := (el_im (w_el w)).
 
-  Lemma f_off : N.to_nat (im_marker im - sp_mi sp - 1) = (N.to_nat (im_marker im) - N.to_nat (sp_mi sp) - 1)%nat.
-  Proof. lia. Qed.
-
   Lemma f_len : im_marker im + nlen (im_ents im) = sp_last sp + 1.
-  Proof.
-    rewrite (r_ents _ _ HR). rewrite nlen_skipn. unfold sp_last.
-    pose proof (r_m1 _ _ HR). pose proof (r_m2 _ _ HR). pose proof (si_sl _ (r_si _ _ HR)).
-    unfold sp_last in *. lia.
-  Qed.
+  Proof. apply (r_w3 _ _ HR). Qed.
 
-  Lemma f_nth k : nth_error (im_ents im) k = nth_error (sp_ents sp) (N.to_nat (im_marker im - sp_mi sp - 1) + k).
-  Proof. rewrite (r_ents _ _ HR). apply nth_error_skipn. Qed.
-
-  Lemma f_get i : im_marker im <= i -> nth_error (im_ents im) (N.to_nat (i - im_marker im)) = sp_get sp i.
-  Proof.
-    intros H. rewrite f_nth. unfold sp_get. pose proof (r_m1 _ _ HR).
-    destruct (i <=? sp_mi sp) eqn:E; [lia|]. f_equal. lia.
-  Qed.
+  Lemma f_get i : sp_mi sp < i -> im_marker im <= i -> nth_error (im_ents im) (N.to_nat (i - im_marker im)) = sp_get sp i.
+  Proof. apply (r_w2 _ _ HR). Qed.
 
   Lemma f_log : log_ok (im_marker im) (im_ents im).
-  Proof.
-    rewrite (r_ents _ _ HR). pose proof (r_m1 _ _ HR).
-    replace (im_marker im) with (sp_mi sp + 1 + N.of_nat (N.to_nat (im_marker im - sp_mi sp - 1))) at 1 by lia.
-    apply log_ok_skipn. apply (si_log _ (r_si _ _ HR)).
-  Qed.
+  Proof. apply (r_w1 _ _ HR). Qed.
 
   Lemma f_nil : im_ents im = [] -> im_marker im = sp_last sp + 1.
   Proof. intros H. pose proof f_len as L. rewrite H in L. rewrite nlen_nil in L. lia. Qed.
 
   Lemma f_last_entry : im_ents im <> [] -> e_index (last_entry (im_ents im)) = sp_last sp.
   Proof. intros H. rewrite (log_ok_last _ _ f_log H). pose proof f_len. lia. Qed.
+
+  (* the window and the logical log coincide from any index above both markers *)
+  Lemma f_window lo : sp_mi sp < lo -> im_marker im <= lo ->
+    skipn (N.to_nat (lo - im_marker im)) (im_ents im) = skipn (N.to_nat (lo - sp_mi sp - 1)) (sp_ents sp).
+  Proof.
+    intros H1 H2. apply nth_error_ext_eq. intros k. rewrite !nth_error_skipn.
+    replace (N.to_nat (lo - im_marker im) + k)%nat with (N.to_nat (lo + N.of_nat k - im_marker im)) by lia.
+    rewrite f_get by lia. unfold sp_get. destruct (lo + N.of_nat k <=? sp_mi sp) eqn:E; [lia|]. f_equal. lia.
+  Qed.
 End Facts.
 
 Lemma sp_get_some sp i e : SI sp -> sp_get sp i = Some e ->
@@ -381,9 +392,12 @@ Proof.
         { pose proof (f_nil _ _ HR En). lia. }
         rewrite <- En. rewrite (f_last_entry _ _ HR) by congruence.
         destruct (i <=? sp_last sp) eqn:E3; [|lia].
-        rewrite (f_get _ _ HR i HM). pose proof (r_m1 _ _ HR).
-        destruct (sp_get_in sp i HS) as [e' Ge]; [lia|lia|]. rewrite Ge. cbn [bind].
-        unfold sp_term. destruct (i =? sp_mi sp) eqn:E4; [lia|]. rewrite Ge. reflexivity.
+        destruct (N.eq_dec i (sp_mi sp)) as [->|Hne].
+        -- destruct (r_w4 _ _ HR HM) as (e' & Ge & Gt). rewrite Ge. cbn [bind].
+           unfold sp_term. rewrite N.eqb_refl. congruence.
+        -- rewrite (f_get _ _ HR i) by lia.
+           destruct (sp_get_in sp i HS) as [e' Ge]; [lia|lia|]. rewrite Ge. cbn [bind].
+           unfold sp_term. destruct (i =? sp_mi sp) eqn:E4; [lia|]. rewrite Ge. reflexivity.
 Qed.
 
 (* ---- size limits: the store's iteration + LogReader's drop rule = limitSize ---- *)
@@ -563,15 +577,14 @@ Proof.
 Qed.
 
 (* entries [lo, hi) taken from the in-memory window *)
-Lemma v_im_entries w sp lo hi : R w sp ->
+Lemma v_im_entries w sp lo hi : R w sp -> sp_mi sp < lo ->
   im_marker (el_im (w_el w)) <= lo -> lo <= hi -> hi <= sp_last sp + 1 ->
   im_get_entries (el_im (w_el w)) lo hi = Ok (sp_slice sp lo hi).
 Proof.
-  intros HR H1 H2 H3. unfold im_get_entries. rewrite (f_len _ _ HR).
+  intros HR H0 H1 H2 H3. unfold im_get_entries. rewrite (f_len _ _ HR).
   destruct ((hi <? lo) || (lo <? im_marker (el_im (w_el w)))) eqn:E1; [lia|].
   destruct (sp_last sp + 1 <? hi) eqn:E2; [lia|].
-  f_equal. unfold sp_slice. f_equal. rewrite (r_ents _ _ HR). rewrite skipn_skipn. f_equal.
-  pose proof (r_m1 _ _ HR). lia.
+  f_equal. unfold sp_slice. f_equal. apply (f_window _ _ HR); auto.
 Qed.
 
 Lemma is_nil_skipn0 {A} (l : list A) : skipn 0 l = l. Proof. reflexivity. Qed.
@@ -583,14 +596,16 @@ Proof.
   destruct (hi <? lo) eqn:E0; [reflexivity|].
   rewrite (r_snap _ _ HR), (v_first _ _ HR), (v_last _ _ HR).
   assert (Hnil : sp_snap sp = true -> im_ents (el_im (w_el w)) = sp_ents sp).
-  { intros Es. destruct (si_snap _ HS Es). rewrite (r_ents _ _ HR).
-    pose proof (r_m1 _ _ HR). pose proof (r_m2 _ _ HR).
-    replace (N.to_nat (im_marker (el_im (w_el w)) - sp_mi sp - 1)) with 0%nat by lia. reflexivity. }
+  { intros Es. pose proof (r_snapm _ _ HR Es) as SM.
+    pose proof (f_window _ _ HR (sp_mi sp + 1)) as FW.
+    replace (N.to_nat (sp_mi sp + 1 - im_marker (el_im (w_el w)))) with 0%nat in FW by lia.
+    replace (N.to_nat (sp_mi sp + 1 - sp_mi sp - 1)) with 0%nat in FW by lia.
+    cbn [skipn] in FW. apply FW; lia. }
   destruct (sp_snap sp) eqn:Es.
   - rewrite (Hnil eq_refl). cbn [andb]. destruct (is_nil (sp_ents sp)) eqn:En; [reflexivity|].
     destruct (lo <? sp_first sp) eqn:E1; [reflexivity|]. destruct (sp_last sp + 1 <? hi) eqn:E2; [reflexivity|].
     cbn [bind]. destruct (lo =? hi) eqn:E3; [reflexivity|].
-    destruct (si_snap _ HS Es). pose proof (r_m1 _ _ HR). pose proof (r_m2 _ _ HR). unfold sp_first in *.
+    destruct (si_snap _ HS Es). pose proof (r_snapm _ _ HR Es). pose proof (r_m2 _ _ HR). unfold sp_first in *.
     unfold el_from_logdb. destruct (im_marker (el_im (w_el w)) <=? lo) eqn:E4; [|lia]. cbn [bind negb].
     unfold el_from_inmem. destruct (hi <=? im_marker (el_im (w_el w))) eqn:E5; [lia|].
     replace (N.max lo (im_marker (el_im (w_el w)))) with lo by lia.
@@ -598,7 +613,7 @@ Proof.
     destruct (sp_slice sp lo hi); reflexivity.
   - cbn [andb]. destruct (lo <? sp_first sp) eqn:E1; [reflexivity|]. destruct (sp_last sp + 1 <? hi) eqn:E2; [reflexivity|].
     cbn [bind]. destruct (lo =? hi) eqn:E3; [reflexivity|]. unfold sp_first in *.
-    pose proof (r_m1 _ _ HR) as M1. pose proof (r_m2 _ _ HR) as M2.
+    pose proof (r_m2 _ _ HR) as M2.
     assert (Hok : rd_ok sp = true) by (unfold rd_ok; rewrite Es; reflexivity).
     unfold el_from_logdb. destruct (im_marker (el_im (w_el w)) <=? lo) eqn:E4.
     + cbn [bind negb]. unfold el_from_inmem. destruct (hi <=? im_marker (el_im (w_el w))) eqn:E5; [lia|].
@@ -632,7 +647,8 @@ Qed.
 Lemma v_to_save w sp : R w sp -> el_to_save (w_el w) = sp_to_save sp.
 Proof.
   intros HR. unfold el_to_save, im_entries_to_save, sp_to_save, two64.
-  pose proof (r_m1 _ _ HR) as M1. pose proof (r_m2 _ _ HR) as M2. pose proof (r_s _ _ HR) as S.
+  pose proof (r_m2 _ _ HR) as M2. pose proof (r_s _ _ HR) as S.
+  pose proof (si_mp _ (r_si _ _ HR)) as SMP. pose proof (si_ps _ (r_si _ _ HR)) as SPS.
   pose proof (si_sl _ (r_si _ _ HR)) as SL. pose proof (si_max _ (r_si _ _ HR)) as MX. unfold max_index in MX.
   pose proof (f_len _ _ HR) as FL. rewrite S.
   assert (2 ^ 62 < 2 ^ 64) by (apply N.pow_lt_mono_r; lia).
@@ -642,7 +658,7 @@ Proof.
         with ((sp_saved sp + 1 - im_marker (el_im (w_el w))) + 1 * 2 ^ 64) by lia.
       rewrite N.mod_add by lia. rewrite N.mod_small; lia. }
   destruct (nlen (im_ents (el_im (w_el w))) <? sp_saved sp + 1 - im_marker (el_im (w_el w))) eqn:E; [lia|].
-  rewrite (r_ents _ _ HR), skipn_skipn. f_equal. lia.
+  rewrite (f_window _ _ HR (sp_saved sp + 1)) by lia. f_equal. lia.
 Qed.
 
 Lemma v_has w sp : R w sp -> el_has_to_apply (w_el w) (w_lr w) = sp_has_to_apply sp.
@@ -701,8 +717,14 @@ Lemma R_el_update w sp el' sp' :
   sp_pend sp' = None -> sp_persisted sp' = false ->
   el_committed el' = sp_committed sp' -> el_processed el' = sp_processed sp' ->
   im_saved (el_im el') = sp_saved sp' ->
-  sp_mi sp + 1 <= im_marker (el_im el') -> im_marker (el_im el') <= sp_saved sp' + 1 ->
-  im_ents (el_im el') = skipn (N.to_nat (im_marker (el_im el') - sp_mi sp - 1)) (sp_ents sp') ->
+  im_marker (el_im el') <= sp_saved sp' + 1 ->
+  log_ok (im_marker (el_im el')) (im_ents (el_im el')) ->
+  (forall i, sp_mi sp < i -> im_marker (el_im el') <= i ->
+     nth_error (im_ents (el_im el')) (N.to_nat (i - im_marker (el_im el'))) = sp_get sp' i) ->
+  im_marker (el_im el') + nlen (im_ents (el_im el')) = sp_last sp' + 1 ->
+  (im_marker (el_im el') <= sp_mi sp ->
+     exists e, nth_error (im_ents (el_im el')) (N.to_nat (sp_mi sp - im_marker (el_im el'))) = Some e /\ e_term e = sp_mt sp) ->
+  (sp_snap sp = true -> im_marker (el_im el') = sp_mi sp + 1) ->
   im_snap (el_im el') = im_snap (el_im (w_el w)) ->
   im_aidx (el_im el') = im_aidx (el_im (w_el w)) -> im_aterm (el_im el') = im_aterm (el_im (w_el w)) ->
   sp_committed sp <= sp_committed sp' ->
@@ -712,7 +734,7 @@ Lemma R_el_update w sp el' sp' :
   (sp_saved sp' = sp_last sp' -> sp_saved sp = sp_last sp /\ sp_last sp' = sp_last sp) ->
   R (with_el w el') sp'.
 Proof.
-  intros HR HS' Hidle Hmi Hmt Hsn Hp' Hpers' Hc Hp Hs M1 M2 He Hsnap Ha1 Ha2 Hcc Hterm Hsv Hget Hlast.
+  intros HR HS' Hidle Hmi Hmt Hsn Hp' Hpers' Hc Hp Hs M2 W1 W2 W3 W4 Wsn Hsnap Ha1 Ha2 Hcc Hterm Hsv Hget Hlast.
   destruct (idle_cover _ (r_si _ _ HR) Hidle) as (Hpers & Hcov).
   assert (Hcov' : cover sp' = sp_saved sp') by (unfold cover; rewrite Hpers'; reflexivity).
   assert (Hok : rd_ok sp' = rd_ok sp) by (unfold rd_ok; rewrite Hsn, Hpers, Hpers'; reflexivity).
@@ -721,9 +743,12 @@ Proof.
   - exact Hc.
   - exact Hp.
   - exact Hs.
-  - exact M1.
   - exact M2.
-  - exact He.
+  - exact W1.
+  - exact W2.
+  - exact W3.
+  - exact W4.
+  - rewrite Hsn. exact Wsn.
   - rewrite Hsnap, Hsn. apply (r_snap _ _ HR).
   - rewrite Ha1. pose proof (r_a1 _ _ HR). lia.
   - rewrite Ha1, Ha2. intros A B. destruct (r_a2 _ _ HR A B) as (C & D). split; auto.
@@ -756,9 +781,12 @@ Proof.
     + destruct HS. constructor; cbn; auto; unfold sp_last in *; cbn; try lia.
     + apply (r_p _ _ HR).
     + apply (r_s _ _ HR).
-    + apply (r_m1 _ _ HR).
     + apply (r_m2 _ _ HR).
-    + apply (r_ents _ _ HR).
+    + apply (r_w1 _ _ HR).
+    + apply (r_w2 _ _ HR).
+    + apply (r_w3 _ _ HR).
+    + apply (r_w4 _ _ HR).
+    + apply (r_snapm _ _ HR).
 Qed.
 
 (* ---- append ---- *)
@@ -769,16 +797,10 @@ Proof.
   cbn [skipn]. f_equal. apply skipn_firstn_comm.
 Qed.
 
-Lemma im_ents_slice w sp : R w sp -> im_ents (el_im (w_el w)) = sp_slice sp (im_marker (el_im (w_el w))) (sp_last sp + 1).
-Proof.
-  intros HR. rewrite (r_ents _ _ HR) at 1. unfold sp_slice. rewrite firstn_all2; [reflexivity|].
-  rewrite skipn_length. pose proof (r_m1 _ _ HR). unfold sp_last, nlen. lia.
-Qed.
-
 Definition app_pre (sp : spec) (ents : list entry) : Prop :=
   exists e0 rest, ents = e0 :: rest /\ log_ok (e_index e0) ents /\
     sp_committed sp < e_index e0 /\ e_index e0 <= sp_last sp + 1 /\
-    (forall e, sp_get sp (e_index e0 - 1) = Some e -> e_term e <= e_term e0) /\
+    sp_term sp (e_index e0 - 1) <= e_term e0 /\
     e_index e0 + nlen ents < max_index.
 
 Lemma sp_append_facts sp ents : SI sp -> app_pre sp ents ->
@@ -807,11 +829,13 @@ Proof.
   - apply log_ok_app.
     + apply log_ok_firstn. apply (si_log _ HS).
     + unfold nlen. rewrite Hfl. replace (sp_mi sp + 1 + N.of_nat (N.to_nat (f - sp_mi sp - 1))) with f by lia. exact Hlog.
-    + intros Hne _. cbn [hd ents]. apply Hj.
+    + intros Hne _. cbn [hd ents].
       pose proof (last_entry_nth _ Hne) as HL. rewrite Hfl in HL.
       assert (N.to_nat (f - sp_mi sp - 1) >= 1)%nat by (destruct (N.to_nat (f - sp_mi sp - 1)); [cbn in Hne; congruence|lia]).
-      rewrite nth_error_firstn_lt in HL by lia. unfold sp_get.
-      destruct (f - 1 <=? sp_mi sp) eqn:E; [lia|]. rewrite <- HL. f_equal. lia.
+      rewrite nth_error_firstn_lt in HL by lia.
+      assert (Hg : sp_get sp (f - 1) = Some (last_entry (firstn (N.to_nat (f - sp_mi sp - 1)) (sp_ents sp)))).
+      { unfold sp_get. destruct (f - 1 <=? sp_mi sp) eqn:E; [lia|]. rewrite <- HL. f_equal. lia. }
+      unfold sp_term in Hj. destruct (f - 1 =? sp_mi sp) eqn:E; [lia|]. rewrite Hg in Hj. exact Hj.
   - unfold sp_last; cbn [sp_mi sp_ents]; rewrite nlen_app; unfold nlen at 1; rewrite Hfl. unfold ents. rewrite nlen_cons. lia.
   - unfold sp_last; cbn [sp_mi sp_ents]; rewrite nlen_app; unfold nlen at 1; rewrite Hfl. unfold ents. rewrite nlen_cons. lia.
   - intros Es. destruct (si_snap _ HS Es). split; lia.
@@ -825,49 +849,108 @@ Proof.
   pose proof (log_ok_hd _ _ _ H). lia.
 Qed.
 
+Lemma sp_append_get_new sp ents i : SI sp -> app_pre sp ents ->
+  e_index (hd dummy_entry ents) <= i ->
+  sp_get (sp_append sp ents) i = nth_error ents (N.to_nat (i - e_index (hd dummy_entry ents))).
+Proof.
+  intros HS Hpre Hi. destruct (sp_append_facts sp ents HS Hpre) as (_ & _ & Hents' & _ & _ & _ & _ & Hmi' & _).
+  destruct Hpre as (e0 & rest & -> & Hlog & Hc & Hl & Hj & Hmax). cbn [hd] in *.
+  pose proof (si_mp _ HS). pose proof (si_pc _ HS).
+  unfold sp_get. rewrite Hents', Hmi'. destruct (i <=? sp_mi sp) eqn:E; [lia|].
+  assert (Hn : (N.to_nat (e_index e0 - sp_mi sp - 1) <= length (sp_ents sp))%nat) by (unfold sp_last, nlen in Hl; lia).
+  rewrite nth_error_app2 by (rewrite firstn_length; lia). rewrite firstn_length. f_equal. lia.
+Qed.
+
 Lemma el_append_R w sp ents : R w sp -> sp_pend sp = None -> app_pre sp ents ->
   exists el', el_append (w_el w) ents = Ok el' /\ R (with_el w el') (sp_append sp ents).
 Proof.
   intros HR Hidle Hpre. pose proof (r_si _ _ HR) as HS.
   destruct (sp_append_facts sp ents HS Hpre) as (HS' & Hlast' & Hents' & Hget' & Hsv' & Hc' & Hp' & Hmi' & Hmt' & Hsn' & Hpd' & Hps').
+  pose proof (sp_append_get_new sp ents) as Hnew. specialize (fun i => Hnew i HS Hpre).
   destruct Hpre as (e0 & rest & -> & Hlog & Hc & Hl & Hj & Hmax). cbn [hd] in *.
   set (f := e_index e0) in *. set (ents := e0 :: rest) in *. set (sp' := sp_append sp ents) in *.
-  pose proof (r_m1 _ _ HR) as M1. pose proof (r_m2 _ _ HR) as M2.
+  pose proof (r_m2 _ _ HR) as M2. pose proof (f_len _ _ HR) as FL. pose proof (f_log _ _ HR) as FLog.
   pose proof (si_mp _ HS). pose proof (si_pc _ HS). pose proof (si_cl _ HS). pose proof (si_ps _ HS). pose proof (si_sl _ HS).
-  assert (Hn : (N.to_nat (f - sp_mi sp - 1) <= length (sp_ents sp))%nat) by (unfold sp_last, nlen in Hl; lia).
-  (* the in-memory window of the new log, for any marker at or below f *)
-  assert (G : forall mk, sp_mi sp + 1 <= mk -> mk <= f ->
-              skipn (N.to_nat (mk - sp_mi sp - 1)) (sp_ents sp') = sp_slice sp mk f ++ ents).
-  { intros mk G1 G2. rewrite Hents'. rewrite skipn_firstn_app by lia. unfold sp_slice. f_equal. f_equal. lia. }
-  assert (GL : forall mk, sp_mi sp + 1 <= mk -> mk <= f -> log_ok mk (sp_slice sp mk f ++ ents)).
-  { intros mk G1 G2. rewrite <- G by auto.
-    replace mk with (sp_mi sp' + 1 + N.of_nat (N.to_nat (mk - sp_mi sp - 1))) at 1 by (rewrite Hmi'; lia).
-    apply log_ok_skipn. apply (si_log _ HS'). }
+  (* the window obtained by keeping the entries below f and appending the new ones *)
+  set (P := firstn (N.to_nat (f - im_marker (el_im (w_el w)))) (im_ents (el_im (w_el w)))).
+  assert (HP : im_marker (el_im (w_el w)) <= f ->
+     length P = N.to_nat (f - im_marker (el_im (w_el w))) /\
+     log_ok (im_marker (el_im (w_el w))) (P ++ ents) /\
+     (forall i, sp_mi sp < i -> im_marker (el_im (w_el w)) <= i ->
+        nth_error (P ++ ents) (N.to_nat (i - im_marker (el_im (w_el w)))) = sp_get sp' i) /\
+     im_marker (el_im (w_el w)) + nlen (P ++ ents) = sp_last sp' + 1 /\
+     (im_marker (el_im (w_el w)) <= sp_mi sp ->
+        exists e, nth_error (P ++ ents) (N.to_nat (sp_mi sp - im_marker (el_im (w_el w)))) = Some e /\ e_term e = sp_mt sp)).
+  { intros Hmf.
+    assert (HPl : length P = N.to_nat (f - im_marker (el_im (w_el w)))).
+    { unfold P. rewrite firstn_length. unfold nlen in FL. lia. }
+    split; [exact HPl|]. split; [|split; [|split]].
+    - apply log_ok_app.
+      + apply log_ok_firstn. exact FLog.
+      + unfold nlen. rewrite HPl. replace (im_marker (el_im (w_el w)) + N.of_nat (N.to_nat (f - im_marker (el_im (w_el w))))) with f by lia. exact Hlog.
+      + intros Hne _. cbn [hd ents].
+        pose proof (last_entry_nth _ Hne) as HL. rewrite HPl in HL.
+        assert (N.to_nat (f - im_marker (el_im (w_el w))) >= 1)%nat by (destruct (N.to_nat (f - im_marker (el_im (w_el w)))); [destruct P; cbn in HPl; [congruence|lia]|lia]).
+        unfold P in HL at 1. rewrite nth_error_firstn_lt in HL by lia.
+        destruct (N.eq_dec (f - 1) (sp_mi sp)) as [Heq|Hne2].
+        * destruct (r_w4 _ _ HR) as (e & Ge & Gt); [lia|].
+          replace (N.to_nat (f - im_marker (el_im (w_el w))) - 1)%nat with (N.to_nat (sp_mi sp - im_marker (el_im (w_el w)))) in HL by lia.
+          rewrite Ge in HL. inversion HL. rewrite <- H6. rewrite Gt.
+          unfold sp_term in Hj. rewrite Heq, N.eqb_refl in Hj. exact Hj.
+        * pose proof (f_get _ _ HR (f - 1)) as FG.
+          replace (N.to_nat (f - 1 - im_marker (el_im (w_el w)))) with (N.to_nat (f - im_marker (el_im (w_el w))) - 1)%nat in FG by lia.
+          rewrite HL in FG. unfold sp_term in Hj. destruct (f - 1 =? sp_mi sp) eqn:E; [lia|].
+          rewrite <- FG in Hj by lia. exact Hj.
+    - intros i Hi1 Hi2. destruct (N.lt_ge_cases i f) as [Hlt|Hge].
+      + rewrite nth_error_app1 by lia. unfold P. rewrite nth_error_firstn_lt by lia.
+        rewrite (f_get _ _ HR) by lia. symmetry. apply Hget'; lia.
+      + rewrite nth_error_app2 by lia. rewrite HPl. rewrite Hnew by lia. f_equal. lia.
+    - rewrite nlen_app. unfold nlen at 1. rewrite HPl. rewrite Hlast'. lia.
+    - intros Hmm. destruct (r_w4 _ _ HR Hmm) as (e & Ge & Gt). exists e. split; [|exact Gt].
+      rewrite nth_error_app1 by lia. unfold P. rewrite nth_error_firstn_lt by lia. exact Ge. }
   (* the merge *)
   assert (HM : exists im', im_merge (el_im (w_el w)) ents = Ok im' /\ im_snap im' = im_snap (el_im (w_el w)) /\ im_aidx im' = im_aidx (el_im (w_el w))
             /\ im_aterm im' = im_aterm (el_im (w_el w)) /\ im_saved im' = N.min (sp_saved sp) (f - 1)
-            /\ sp_mi sp + 1 <= im_marker im' /\ im_marker im' <= N.min (sp_saved sp) (f - 1) + 1
-            /\ im_ents im' = skipn (N.to_nat (im_marker im' - sp_mi sp - 1)) (sp_ents sp')).
-  { unfold im_merge, ents. fold f. fold ents. rewrite (f_len _ _ HR). 
+            /\ im_marker im' <= N.min (sp_saved sp) (f - 1) + 1
+            /\ log_ok (im_marker im') (im_ents im')
+            /\ (forall i, sp_mi sp < i -> im_marker im' <= i -> nth_error (im_ents im') (N.to_nat (i - im_marker im')) = sp_get sp' i)
+            /\ im_marker im' + nlen (im_ents im') = sp_last sp' + 1
+            /\ (im_marker im' <= sp_mi sp -> exists e, nth_error (im_ents im') (N.to_nat (sp_mi sp - im_marker im')) = Some e /\ e_term e = sp_mt sp)
+            /\ (sp_snap sp = true -> im_marker im' = sp_mi sp + 1)).
+  { unfold im_merge, ents. fold f. fold ents. rewrite FL.
     destruct (f =? sp_last sp + 1) eqn:E1.
     - (* plain append *)
-      rewrite (im_ents_slice _ _ HR).  replace (sp_last sp + 1) with f by lia.
-      rewrite (check_append_ok (im_marker (el_im (w_el w)))) by (apply GL; lia). cbn [bind].
-      rewrite check_marker_hd by (cbn; apply GL; lia).
-      eexists; split; [reflexivity|]. cbn. rewrite (r_s _ _ HR). repeat split; auto; try lia.
-      rewrite G by lia. reflexivity.
+      destruct HP as (HPl & W1 & W2 & W3 & W4); [lia|].
+      assert (HPe : P = im_ents (el_im (w_el w))).
+      { unfold P. apply firstn_all2. unfold nlen in FL. lia. }
+      rewrite HPe in *.
+      rewrite (check_append_ok (im_marker (el_im (w_el w)))) by exact W1. cbn [bind].
+      rewrite check_marker_hd by (cbn [im_marker im_ents]; exact W1).
+      eexists; split; [reflexivity|]. cbn [im_snap im_aidx im_aterm im_saved im_marker im_ents]. rewrite (r_s _ _ HR).
+      split; [reflexivity|]. split; [reflexivity|]. split; [reflexivity|]. split; [lia|]. split; [lia|].
+      split; [exact W1|]. split; [exact W2|]. split; [exact W3|]. split; [exact W4|]. apply (r_snapm _ _ HR).
     - destruct (f <=? im_marker (el_im (w_el w))) eqn:E2.
       + (* replace everything in memory *)
-        cbn [bind]. rewrite check_marker_hd by (cbn; apply (log_ok_skipn _ 0) in Hlog; rewrite N.add_0_r in Hlog; exact Hlog).
-        eexists; split; [reflexivity|]. cbn. repeat split; auto; try lia.
-        rewrite G by lia. unfold sp_slice. replace (N.to_nat (f - f)) with 0%nat by lia. reflexivity.
+        cbn [bind]. rewrite check_marker_hd by (cbn [im_marker im_ents]; exact Hlog).
+        eexists; split; [reflexivity|]. cbn [im_snap im_aidx im_aterm im_saved im_marker im_ents].
+        split; [reflexivity|]. split; [reflexivity|]. split; [reflexivity|]. split; [lia|]. split; [lia|].
+        split; [exact Hlog|]. split; [|split; [|split]].
+        * intros i Hi1 Hi2. rewrite Hnew by lia. reflexivity.
+        * rewrite Hlast'. lia.
+        * intros; lia.
+        * intros Es. pose proof (r_snapm _ _ HR Es). lia.
       + (* truncate and append *)
-        rewrite (v_im_entries _ _ _ _ HR) by lia. cbn [bind].
-        rewrite (check_append_ok (im_marker (el_im (w_el w)))) by (apply GL; lia). cbn [bind].
-        rewrite check_marker_hd by (cbn; apply GL; lia).
-        eexists; split; [reflexivity|]. cbn. rewrite (r_s _ _ HR). repeat split; auto; try lia.
-        rewrite G by lia. reflexivity. }
-  destruct HM as (im' & Hm & I1 & I2 & I3 & I4 & I5 & I6 & I7).
+        destruct HP as (HPl & W1 & W2 & W3 & W4); [lia|].
+        unfold im_get_entries. rewrite FL.
+        destruct ((f <? im_marker (el_im (w_el w))) || (im_marker (el_im (w_el w)) <? im_marker (el_im (w_el w)))) eqn:E3; [lia|].
+        destruct (sp_last sp + 1 <? f) eqn:E4; [lia|]. cbn [bind].
+        replace (N.to_nat (im_marker (el_im (w_el w)) - im_marker (el_im (w_el w)))) with 0%nat by lia. cbn [skipn]. fold P.
+        rewrite (check_append_ok (im_marker (el_im (w_el w)))) by exact W1. cbn [bind].
+        rewrite check_marker_hd by (cbn [im_marker im_ents]; exact W1).
+        eexists; split; [reflexivity|]. cbn [im_snap im_aidx im_aterm im_saved im_marker im_ents]. rewrite (r_s _ _ HR).
+        split; [reflexivity|]. split; [reflexivity|]. split; [reflexivity|]. split; [lia|]. split; [lia|].
+        split; [exact W1|]. split; [exact W2|]. split; [exact W3|]. split; [exact W4|]. apply (r_snapm _ _ HR). }
+  destruct HM as (im' & Hm & I1 & I2 & I3 & I4 & I5 & I6 & I7 & I8 & I9 & I10).
   unfold el_append, ents. fold f. fold ents. rewrite (r_c _ _ HR).
   destruct (f <=? sp_committed sp) eqn:E; [lia|].  rewrite Hm. cbn [bind].
   eexists; split; [reflexivity|].
@@ -891,11 +974,7 @@ Proof.
   destruct (bool_log_ok _ _ _ H3 H0) as (Hlog & Hge); [lia|].
   destruct (el_append_R w sp (e0 :: rest) HR Ep) as (el' & He & HR').
   { exists e0, rest. split; [reflexivity|]. split; [exact Hlog|]. split; [lia|]. split; [lia|]. split; [|lia].
-    intros e1 Ge. specialize (Hge e0 (or_introl eq_refl)).
-    assert (sp_term sp (e_index e0 - 1) = e_term e1).
-    { unfold sp_term. destruct (sp_get_some _ _ _ HS Ge) as (_ & _ & X & _).
-      destruct (e_index e0 - 1 =? sp_mi sp) eqn:E; [lia|]. rewrite Ge. reflexivity. }
-    lia. }
+    specialize (Hge e0 (or_introl eq_refl)). lia. }
   cbn [step]. unfold w_append. rewrite He. cbn [bind]. eexists; split; [reflexivity|]. exact HR'.
 Qed.
 
@@ -981,7 +1060,10 @@ Proof.
   - constructor; cbn; rewrite <- ?Hn; unfold sp_last; cbn; rewrite <- ?Hn; try lia; try congruence.
     + exact Hlog.
     + change max_index with 4611686018427387904 in H0. lia.
-  - rewrite skipn_all2; [reflexivity|]. unfold nlen in Hn. lia.
+  - apply log_ok_nil.
+  - intros i Hi1 Hi2. rewrite (proj2 (nth_error_None (@nil entry) _)) by (cbn; lia).
+    symmetry; apply sp_get_none; unfold sp_last; cbn [sp_mi sp_ents]; lia.
+  - unfold sp_last. cbn [sp_mi sp_ents]. rewrite nlen_nil. lia.
   - reflexivity.
   - unfold rd_ok, cover, lr_last, sp_last. cbn [sp_snap sp_persisted sp_saved sp_mi sp_mt sp_ents negb orb]. rewrite <- ?Hn.
     intros _. rewrite L1, L3. repeat split; try lia.
